@@ -39,6 +39,12 @@ func doLZ4Encode(data []byte, level int) ([]byte, error) {
 func doLZ4Decode(buf []byte) ([]byte, error) {
 	dst := make([]byte, 10*len(buf))
 	n, err := lz4.UncompressBlock(buf, dst)
+	// 压缩比超过10倍的数据，预分配的空间不足，
+	// 使用lz4 block的最大压缩比(255倍)重试一次
+	if err == lz4.ErrInvalidSourceShortBuffer {
+		dst = make([]byte, 255*len(buf)+64)
+		n, err = lz4.UncompressBlock(buf, dst)
+	}
 	if err != nil {
 		return nil, err
 	}
